@@ -19,7 +19,7 @@ import (
 
 func c05Base(r *rand.Rand, kind string, mapKind string) *Scenario {
 	kind, home := homeKind(r, kind)
-	fan := FanSpec{Kind: kind, HomePath: home, NeverStop: false, HasRpm: r.Intn(2) == 0, HasEnable: true, HasPwm: true, SimMin: 0, SimMax: 255}
+	fan := FanSpec{Kind: kind, HomePath: home, ViaLoader: kind != "sim" && r.Intn(4) == 0, NeverStop: false, HasRpm: r.Intn(2) == 0, HasEnable: true, HasPwm: true, SimMin: 0, SimMax: 255}
 	if kind == "hwmon" && r.Intn(2) == 0 {
 		mn, mx := genLimits(r)
 		fan.CfgMin, fan.CfgMax = iptr(mn), iptr(mx)
